@@ -1,15 +1,16 @@
 package drivers
 
 import (
-	"time"
-	"runtime"
-	"sort"
 	"encoding/json"
 	"fmt"
 	"math/rand"
 	"os"
+	"runtime"
+	"sort"
 	"strconv"
+	"strings"
 	"testing"
+	"time"
 
 	"verifharness/ctl"
 )
@@ -267,7 +268,6 @@ func (d *Driver) runOne(scn Scenario, sched Scheduler) (RunResult, []ctl.Event) 
 	return res, evs
 }
 
-
 func (d *Driver) crumb(scn Scenario, sched any) {
 	b, _ := json.Marshal(map[string]any{"scenario": scn, "sched": sched, "run": d.Shard*100000 + d.RunNo + 1})
 	_ = os.WriteFile(fmt.Sprintf("%s/current-s%d.json", d.Out, d.Shard), b, 0o644)
@@ -349,12 +349,25 @@ func (d *Driver) mergeScenario() Scenario {
 	return scn
 }
 
-func (d *Driver) faultRuns(runs int) {
+func (d *Driver) faultRuns(runs int) { d.faultRunsOf(runs, "faults", "") }
+
+// faultRunsOf: name "faults" = random scenarios, failures anywhere; name "filefaults" = merge-heavy scenarios
+// with KeepN 1..3, failures only on operations whose class contains classFilter (the removals of the clean-up)
+func (d *Driver) faultRunsOf(runs int, name, classFilter string) {
 	for i := 0; i < runs; {
 		scn := d.randomScenario("faults", 2, 3, true)
+		if name == "filefaults" {
+			scn = d.mergeScenario()
+			scn.Opts.Path = "FS"
+			scn.Opts.KeepN = 1 + d.Rng.Intn(3)
+			scn.Readers = d.Rng.Intn(2)
+		}
+		scn.Name = name
 		scn.Second = false
 		scn.Opts.Unsafe = d.Rng.Intn(2) == 0
-		scn.Opts.Merge = []string{"eager2", "none", "default"}[d.Rng.Intn(3)]
+		if name == "faults" {
+			scn.Opts.Merge = []string{"eager2", "none", "default"}[d.Rng.Intn(3)]
+		}
 		for ci := range scn.Clients {
 			for bi := range scn.Clients[ci] {
 				scn.Clients[ci][bi].CB = d.Rng.Intn(2) == 0
@@ -379,6 +392,9 @@ func (d *Driver) faultRuns(runs int) {
 					continue
 				}
 				cl := fmt.Sprint(e["proc"], ":", ev, ":", e["kind"])
+				if classFilter != "" && !strings.Contains(cl, classFilter) {
+					continue
+				}
 				if _, ok := classes[cl]; !ok {
 					classNames = append(classNames, cl)
 				}
@@ -389,7 +405,10 @@ func (d *Driver) faultRuns(runs int) {
 		// every placement would be nops*3 runs; take a seeded sample per scenario
 		for k := 0; k < 6 && i < runs && nops > 2; k++ {
 			op := 2 + d.Rng.Intn(nops-2)
-			if k%2 == 1 && len(classNames) > 0 {
+			if classFilter != "" && len(classNames) == 0 {
+				break
+			}
+			if (k%2 == 1 || classFilter != "") && len(classNames) > 0 {
 				c := classes[classNames[d.Rng.Intn(len(classNames))]]
 				op = c[d.Rng.Intn(len(c))]
 			}
@@ -509,13 +528,26 @@ func (d *Driver) RunFamily(fam string, runs int) {
 	case "core", "":
 		for i := 0; i < runs; i++ {
 			scn := d.randomScenario("core", 3, 3, false)
+			if i%5 == 4 {
+				// batch objects re-used after a delete-only (or empty) batch while another caller writes the same ids
+				scn.Opts.ReuseBatch = true
+				x, y := allIds[r.Intn(2)], allIds[2]
+				first := []ctl.Op{{Kind: "del", ID: x}}
+				if r.Intn(3) == 0 {
+					first = []ctl.Op{}
+				}
+				scn.Clients = [][]BatchSpec{
+					{{Ops: first}, {Ops: []ctl.Op{{Kind: "upd", ID: y}}}, {Ops: randomOps(r, allIds, true)}},
+					{{Ops: []ctl.Op{{Kind: "upd", ID: x}}}, {Ops: randomOps(r, allIds, true)}},
+				}
+			}
 			d.simple(scn, NewPrioSched(r.Int63(), 3, 120), nil)
 		}
 	case "dup":
 		// the known-finding probe: one id named by two operations of one batch
 		for i := 0; i < runs; i++ {
 			scn := Scenario{Name: "dup-probe", Ids: allIds, Readers: 1,
-				Opts: ctl.Opts{Path: "FS", SegVersion: 1 + i%2, KeepN: 1, Merge: "none"},
+				Opts:    ctl.Opts{Path: "FS", SegVersion: 1 + i%2, KeepN: 1, Merge: "none"},
 				Clients: [][]BatchSpec{{{Ops: []ctl.Op{{Kind: "upd", ID: "a"}, {Kind: "upd", ID: "a"}}}}}}
 			d.simple(scn, NewPrioSched(r.Int63(), 1, 50), nil)
 		}
@@ -600,6 +632,28 @@ func (d *Driver) RunFamily(fam string, runs int) {
 		for i := 0; i < runs; i++ {
 			d.simple(d.mergeScenario(), NewPrioSched(r.Int63(), 4, 150), nil)
 		}
+	case "mergeimg":
+		// file merges overlapped by batches (merge-window steering), with crash images: persisted roots whose
+		// segments are not in id order, recovered and written to again
+		for i := 0; i < runs; i++ {
+			scn := d.mergeScenario()
+			scn.Name = "mergeimg"
+			scn.Opts.Path = "FS"
+			scn.Images, scn.Readers, scn.Second = true, 0, false
+			scn.MergeWindow = 1 + r.Intn(2)
+			if i%3 == 0 {
+				// two batches on other ids land (and stay alive) while the merge of the first two segments is in flight:
+				// the persisted root is [4 5 3]-like, its last segment is neither the newest nor the one with the highest id
+				scn.Ids = []string{"a", "b", "c", "d"}
+				scn.Clients = [][]BatchSpec{{
+					{Ops: []ctl.Op{{Kind: "upd", ID: "a"}}}, {Ops: []ctl.Op{{Kind: "upd", ID: "b"}}},
+					{Ops: []ctl.Op{{Kind: "upd", ID: "c"}}}, {Ops: []ctl.Op{{Kind: "upd", ID: "d"}}},
+					{Ops: randomOps(r, allIds, true)},
+				}}
+				scn.Opts.Merge, scn.Opts.MinMemMerge, scn.MergeWindow, scn.CloseLast = "eager2", 100, 2, true
+			}
+			d.simple(scn, NewPrioSched(r.Int63(), 4, 150), nil)
+		}
 	case "files":
 		for i := 0; i < runs; i++ {
 			scn := d.mergeScenario()
@@ -613,6 +667,8 @@ func (d *Driver) RunFamily(fam string, runs int) {
 		}
 	case "faults":
 		d.faultRuns(runs)
+	case "filefaults":
+		d.faultRunsOf(runs, "filefaults", "RemoveEnd")
 	case "close":
 		for i := 0; i < runs; i++ {
 			scn := d.mergeScenario()
@@ -640,6 +696,7 @@ func (d *Driver) RunFamily(fam string, runs int) {
 			scn.Opts.Path = "FS"
 			scn.FreeReaders = r.Intn(4)
 			scn.Churn = r.Intn(2) * (1 + r.Intn(6))
+			scn.DoubleClose = r.Intn(3) == 0
 			nc := 2 + r.Intn(5)
 			scn.Clients = nil
 			for c := 0; c < nc; c++ {
